@@ -33,6 +33,16 @@ theorem C19_flood_starves_unfixed (B : Nat) (hB : 0 < B) (q : Nat) (hq : B ≤ q
 
 /-- responses are complete: exit happens only BETWEEN calls, and every datagram a call sends is a
     complete valid response (C02_honest applies to every pass of every call). -/
-theorem C19_replies_complete := @Rough.Props.C02.C02_honest
+theorem C19_replies_complete (E : Env) (hE : ServerSpec.EnvOK E) (hS : E.S.Correct) (K : ServerSpec.Keys) (hK : K.OK)
+    (debug : Bool) (s : Server) (hs : ServerSpec.Inv E K s) (hb : s.batchSize ≤ 2 ^ 32) (p : Server.Pass)
+    (hp : ServerSpec.PassOK p) :
+    ∃ s' sent ev, Server.pass E debug s p = .ok (s', sent, ev) ∧
+      ∀ ver, ∀ i (h : i < (ServerSpec.accepted s.srv ver (p.chunk.take s.batchSize)).length),
+        let reqs := ServerSpec.accepted s.srv ver (p.chunk.take s.batchSize)
+        let now := match ver with | .ietf => p.nowIetf | .google => p.nowClassic
+        ∃ x ∈ sent, x.dst = reqs[i].1.src ∧
+          Spec.RT.verifyResponse E.S E.H (ServerSpec.protoOfVer ver) (E.S.pk K.seed) reqs[i].1.bytes reqs[i].2 x.bytes
+            = .ok (ServerSpec.midpVal ver now, radiOf ver) :=
+  Rough.Props.C02.C02_honest E hE hS K hK debug s hs hb p hp
 
 end Rough.Props.C19
